@@ -67,7 +67,39 @@ struct C06 : public Driver {
         p["reuse"] = g.chance(1, 2);
         // three documents, three stylesheets (one clean and feature rich, two with an abort cause at a seeded node)
         Json docs = Json::array(), sheets = Json::array(), res = Json::object(), sab = Json::array(); std::vector<GenDoc> gd;
-        for (int i = 0; i < 3; ++i) { DocCfg dc; dc.maxNodes = (int)g.range(6, 40); dc.dtd = g.chance(1, 3); dc.ns = g.chance(2, 3); dc.manyNames = (i == 2 && g.chance(1, 3)); if (dc.manyNames) dc.maxNodes = 80; gd.push_back(genDoc(g, dc)); docs.push(gd.back().xml); }
+        bool twinWanted = g.chance(1, 3), flat = twinWanted && g.chance(1, 2);      // see below; flat: a table of records (only the document element has element children)
+        for (int i = 0; i < 3; ++i) { DocCfg dc; dc.maxNodes = (int)g.range(6, 40); dc.dtd = g.chance(1, 3) && !(twinWanted && i == 0); if (flat && i == 0) { dc.maxDepth = 1; dc.maxFan = 12; } dc.ns = g.chance(2, 3); dc.manyNames = (i == 2 && g.chance(1, 3)); if (dc.manyNames) dc.maxNodes = 80; gd.push_back(genDoc(g, dc)); docs.push(gd.back().xml); }
+        // Addresses recur across the sources one transformer sees (the manager hands blocks out again, last freed first).
+        // One run in three makes that matter: white space between all tags (every element gets white-space-only children,
+        // the nodes xsl:strip-space decides about), and the second document is the first with its element names rotated (the document element's too) -
+        // same shape, same block sizes, so the node at a given address has another name in the next source.
+        if (twinWanted) {
+            p["reuse"] = true;
+            auto spaced = [](const std::string& x, bool rotate) {
+                static const char* ring[] = { "sec", "a", "item", "p", "b", "c", "d", "doc" };
+                std::string o; size_t body = x.find("<doc"); if (body == std::string::npos) return x;
+                o = x.substr(0, body);
+                for (size_t i = body; i < x.size(); ) {
+                    if (x[i] == '<' && i + 1 < x.size() && x[i + 1] != '!' && x[i + 1] != '?') {
+                        size_t j = i + 1; if (x[j] == '/') ++j; size_t k = j; while (k < x.size() && (isalnum((unsigned char)x[k]) || x[k] == ':' || x[k] == '_' || x[k] == '-' || x[k] == '.')) ++k;
+                        std::string nm = x.substr(j, k - j);
+                        if (rotate) for (int r = 0; r < 8; ++r) if (nm == ring[r]) { nm = ring[(r + 1) % 8]; break; }
+                        o += x.substr(i, j - i); o += nm; i = k; continue;
+                    }
+                    o += x[i];
+                    if (x[i] == '>' && i + 1 < x.size() && x[i + 1] == '<') o += "\n ";
+                    ++i;
+                }
+                return o;
+            };
+            if (gd[0].xml.find("<!DOCTYPE") == std::string::npos) {
+                gd[1] = gd[0]; gd[0].xml = spaced(gd[0].xml, false); gd[1].xml = spaced(gd[1].xml, true);
+                if (gd[2].xml.find("<!DOCTYPE") == std::string::npos) gd[2].xml = spaced(gd[2].xml, g.chance(1, 2));
+                docs = Json::array(); for (auto& d : gd) docs.push(d.xml);
+                p["twin"] = true;
+            }
+        }
+        bool twin = p.boolean("twin");
         auto allowed = featuresExcept({});
         static const std::vector<std::string> aborts = { "message", "key", "extfn", "encoding", "badname" };
         for (int i = 0; i < 3; ++i) {
@@ -78,8 +110,8 @@ struct C06 : public Driver {
             { unsigned m = (unsigned)g.below(12); if (m == 0) { sc.method = ""; sc.rootName = "html"; } else if (m == 1) sc.method = "html"; else if (m == 2) sc.method = "text"; else if (m == 3) { sc.method = ""; } }   // output method: xml mostly; html, text, and the switch to html after the first element
             sc.dfVariant = (int)g.below(3); if (g.chance(1, 2)) sc.on.insert("fmtnum-df"); if (g.chance(1, 2)) sc.on.insert("sort-gate"); if (g.chance(1, 4)) sc.on.insert("bignum-alpha");
             { static const std::vector<std::string> langs = { "de", "de", "fr", "en" }; static const std::vector<std::string> cases = { "", "upper-first", "lower-first" }; sc.sortLang = g.pick(langs); sc.sortCase = g.pick(cases); }
-            sc.useImport = g.chance(1, 3); sc.useInclude = g.chance(1, 4); sc.docFn = g.chance(1, 3); sc.stripSpace = g.chance(1, 3);
-            if (sc.stripSpace && g.chance(1, 2)) { static const std::vector<std::string> sets = { "doc sec", "a b c", "item p", "doc a item", "sec c d p1:a" }; sc.stripNames = g.pick(sets); }      // named elements: the answer depends on the parent's name
+            sc.useImport = g.chance(1, 3); sc.useInclude = g.chance(1, 4); sc.docFn = g.chance(1, 3); sc.stripSpace = g.chance(1, 3) || (twin && i == 0);
+            if (sc.stripSpace && (g.chance(1, 2) || twin)) { static const std::vector<std::string> sets = { "doc sec", "a b c", "item p", "doc a item", "sec c d p1:a" }; sc.stripNames = g.pick(sets); }      // named elements: the answer depends on the parent's name
             if (g.chance(1, 4)) sc.indentAmount = (int)g.below(6);
             static const std::vector<std::string> encs = { "UTF-8", "UTF-8", "UTF-16", "ISO-8859-1", "US-ASCII" }; sc.encoding = g.pick(encs);
             static const std::vector<std::string> orders = { "doc", "rk", "rev" }; sc.order = g.pick(orders);
